@@ -28,6 +28,9 @@ def _anc16(n):
         p = getattr(p, "_jv_parent", None)
 
 
+from .srcmodel import stmt_of as stmt_of16
+
+
 def run(ctx: Ctx) -> int:
     # ---------------- C16.a ---------------------------------------------------
     init = ctx.func("_link_arguments:ActionLink.__init__")
@@ -322,6 +325,43 @@ def run(ctx: Ctx) -> int:
             joins = [x for x in ast.walk(pref_loops[0]) if isinstance(x, ast.Subscript) and ast.unparse(x.value) == parts_txt and isinstance(x.slice, ast.Slice)]
             okr = bool(joins) and all(x.slice.lower is None and isinstance(x.slice.upper, ast.BinOp) and isinstance(x.slice.upper.op, ast.Add) and {ast.unparse(x.slice.upper.left), ast.unparse(x.slice.upper.right)} == {nv, "1"} for x in joins)
     ctx.oblige("C16.a", okr, rg, "every proper prefix of a target key (from its first component on) is tried as a parent target" if okr else f"`{ast.unparse(rg)}` does not enumerate every proper prefix of the target key: the edge from a nested target to its parent target (root.child -> root) is lost, and a class group is built before the component that a link feeds into its nested parameter", fn=iof, construct="all proper prefixes")
+
+    # ---------------- C16.g: a refused link leaves the parser as it was --------------------------------------------------
+    # every way ActionLink.__init__ can refuse (explicit raise, the cycle check) lies BEFORE the first lasting change of the
+    # parser's tables; a registration that only serves the cycle check is undone in a `finally`
+    gi16 = ctx.cfg(init)
+    pname = init.args.args[1].arg
+
+    def _is_mutation(n_):
+        if isinstance(n_, ast.Assign) and any(isinstance(t, ast.Subscript) and root_name(t) == pname for t in n_.targets):
+            return True
+        if isinstance(n_, ast.Expr) and isinstance(n_.value, ast.Call) and isinstance(n_.value.func, ast.Attribute) and n_.value.func.attr in ("remove", "clear", "append", "add", "update", "extend", "pop", "insert"):
+            recv = ast.unparse(n_.value.func.value)
+            return recv.startswith(pname + ".") or "_group_actions" in recv or "sub_add_kwargs" in recv
+        return False
+
+    muts = [n_ for n_ in walk_local(init) if _is_mutation(n_)]
+    # temporary registrations: append(self) directly followed by a try whose finally removes self from the same list
+    temp = set()
+    for n_ in muts:
+        c_ = n_.value if isinstance(n_, ast.Expr) else None
+        if c_ is not None and c_.func.attr == "append":
+            recv = ast.unparse(c_.func.value)
+            par = getattr(n_, "_jv_parent", None)
+            body = next((getattr(par, f) for f in ("body", "orelse", "finalbody") if isinstance(getattr(par, f, None), list) and n_ in getattr(par, f)), None)
+            if body is not None and body.index(n_) + 1 < len(body):
+                nxt = body[body.index(n_) + 1]
+                if isinstance(nxt, ast.Try) and any(isinstance(x, ast.Call) and isinstance(x.func, ast.Attribute) and x.func.attr == "remove" and ast.unparse(x.func.value) == recv for f_ in nxt.finalbody for x in ast.walk(f_)):
+                    temp.add(id(n_))
+                    for f_ in nxt.finalbody:
+                        for x in ast.walk(f_):
+                            if isinstance(x, ast.Expr) and _is_mutation(x):
+                                temp.add(id(x))
+    lasting = [n_ for n_ in muts if id(n_) not in temp]
+    ctx.floor("C16.g-lasting-changes", len(lasting), 4)
+    refusals = [r for r in walk_local(init) if isinstance(r, ast.Raise)] + [stmt_of16(c) for c in io]
+    late = [r for r in refusals if gi16.can_reach(gi16.cn(lasting), gi16.cn(r), exclude_labels=NX)]
+    ctx.oblige("C16.g", not late, late[0] if late else init, "every refusal of a link happens before the parser's tables are changed for good" if not late else f"`{src(late[0], 60)}` can refuse the link after the parser was already changed (target action replaced / groups updated / link registered): the ValueError for a cyclic link leaves a half-built link behind - every later link_arguments call reports the same cycle and parse_args raises AttributeError", fn=init)
 
     # ---------------- C16.f ---------------------------------------------------
     # links between init args of one nested class are re-declared on the per-class parser (get_class_parser),
